@@ -76,6 +76,9 @@ func (h *hSpec) Cond(x *gea.Exec, st *gea.State, e ast.Expr, env *gea.Env) ([]ge
 		if h.isRootFunc(x, v, "Memberlist.hasLeft") {
 			return x.Atom(st, vLeft), true
 		}
+		if h.isRootFunc(x, v, "Memberlist.hasShutdown") {
+			return x.Atom(st, "shutdown"), true
+		}
 	case *ast.BinaryExpr:
 		switch v.Op {
 		case token.EQL, token.NEQ, token.LSS, token.LEQ, token.GTR, token.GEQ:
@@ -161,7 +164,7 @@ func (h *hSpec) Assign(x *gea.Exec, st *gea.State, lhs, rhs ast.Expr, val gea.Te
 	if ix, ok := ast.Unparen(rhsOrNil(rhs)).(*ast.IndexExpr); ok {
 		owner := p.FieldOwner(ix.X)
 		keyName := x.ValueName(st, ix.Index, nil)
-		if owner == "Memberlist.nodeMap" && keyName == "c.Node" {
+		if owner == "Memberlist.nodeMap" && (keyName == "c.Node" || (h.claim == nil && keyName == "m.config.Name")) {
 			if val.K == gea.KRef { // the ok result
 				return st.Bind(lkey, gea.Ref(vOK))
 			}
@@ -265,7 +268,7 @@ func claimFields(x *gea.Exec, st *gea.State, arg ast.Expr) map[string]string {
 	if t, ok := st.Store[bk]; ok && t.K == gea.KSym && strings.HasPrefix(t.S, "&") {
 		// pointer to a literal bound earlier: fields were bound under the variable
 	}
-	for _, f := range []string{"Incarnation", "Node", "From", "Addr", "Port", "Meta", "Vsn"} {
+	for _, f := range []string{"Incarnation", "Node", "From", "Addr", "Port", "Meta", "Vsn", "Name"} {
 		if t, ok := st.Store[bk+"."+f]; ok {
 			d[f] = strings.TrimPrefix(t.String(), "=")
 		}
@@ -314,7 +317,15 @@ func (h *hSpec) Call(x *gea.Exec, st *gea.State, call *ast.CallExpr, env *gea.En
 	case root + "EventDelegate":
 		return one(x.Effect(st, "EVT:"+strings.TrimPrefix(callee.Name(), "Notify"), call.Pos(), map[string]string{"arg": arg(0)}))
 	case root + "ConflictDelegate":
-		return one(x.Effect(st, "CONFLICT", call.Pos(), map[string]string{"existing": arg(0), "other": arg(1)}))
+		d := map[string]string{"existing": arg(0), "other": arg(1)}
+		if len(call.Args) > 1 {
+			for k, v := range claimFields(x, st, call.Args[1]) {
+				if k != "claim" {
+					d["other."+k] = v
+				}
+			}
+		}
+		return one(x.Effect(st, "CONFLICT", call.Pos(), d))
 	case root + "AliveDelegate":
 		return one(x.Effect(st, "ALIVEDELEGATE", call.Pos(), nil))
 	case root + "suspicion":
